@@ -8,7 +8,8 @@ class Check(RuntimeCheck):
     prop = 'C04'
     design_ref = 'DESIGN.md §4.3, §5 C04'
     theorems = ['C04_ordered_call_bumps', 'C04_accepts', 'C04_wrong_method', 'C04_wrong_inputs',
-                'C04_unordered_no_slot', 'C04_unmentioned_no_slot']
+                'C04_unordered_no_slot', 'C04_unmentioned_no_slot', 'C04_assembled_ranges',
+                'C04_accepted_call_refines', 'C04_unordered_keeps_invariant', 'ranges_of_setPat', 'modeOf_setPat']
 
     def rule(self):
         return ("prefix-tree enumeration: ordered clause sequences (2..4 next_call clauses over methods a/b of two traits, "
